@@ -33,6 +33,22 @@ MUTATING_METHODS = {"append", "extend", "insert", "remove", "pop", "clear", "sor
 
 
 # --------------------------------------------------------------------------------------- ordered paths
+KEEP_RESOLVER: Callable[[Program], set[str]] | None = None   # set by the checker: role-bound anchors
+
+
+def kept(prog: Program | None) -> set[str]:
+    """Names of the private methods the rules anchor on (never spliced / entered): the engine's list plus the
+    ones the checker has bound by role."""
+    if prog is None:
+        return set(ANCHOR_NAMES)
+    if "_c09_keep" not in prog.__dict__ and KEEP_RESOLVER is not None:
+        prog.__dict__["_c09_keep"] = set()     # re-entrancy guard while the roles are being resolved
+        prog.__dict__["_c09_keep"] = set(KEEP_RESOLVER(prog))
+    return set(prog.__dict__.get("_c09_keep", set())) | (ANCHOR_NAMES - set(ROLE_HINT_NAMES))
+
+
+ROLE_HINT_NAMES: set[str] = set()   # hint names of role-bound anchors: only anchors while they play the role
+
 PRE = "pre@"
 
 
@@ -93,7 +109,7 @@ class OrderedSymExec(SymExec):
         if self.prog is None or self.fn is None or len(self.stack) >= self.depth:
             return None
         h = _helper_target(self.prog, self.fn, call, {})
-        if h is None or h.name in ANCHOR_NAMES or isinstance(h, ast.AsyncFunctionDef) or h.name in self.stack \
+        if h is None or h.name in kept(self.prog) or isinstance(h, ast.AsyncFunctionDef) or h.name in self.stack \
                 or h.name == self.fn.name:
             return None
         if h.decorator_list and not all(isinstance(d, ast.Name) and d.id in ("staticmethod", "override")
@@ -386,7 +402,7 @@ def inline_value_helpers(prog: Program, fn: FuncInfo, root: FuncNode, rounds: in
         changed = False
         for call in [n for n in ast.walk(root) if isinstance(n, ast.Call)]:
             h = _helper_target(prog, fn, call, {})
-            if h is None or h is root or h.name in ANCHOR_NAMES or isinstance(h, ast.AsyncFunctionDef) \
+            if h is None or h is root or h.name in kept(prog) or isinstance(h, ast.AsyncFunctionDef) \
                     or h.name == fn.name:
                 continue
             if h.decorator_list and not all(isinstance(d, ast.Name) and d.id in ("staticmethod", "override")
